@@ -266,6 +266,9 @@ RulesRevoke(a, o) ==
 
 RulesDeviceAuthorize(a, o) ==
   { <<"C05.device.grant", (o.class = "device") => (a.caller \in Clients /\ "device" \in Reg[a.caller].grants)>>,
+    \* the device code is recorded for the client that authenticated, whatever else the request names
+    <<"C05.device.boundTo", (o.class = "device") => o.req = a.caller>>,
+    <<"C16.device.boundTo", (o.class = "device") => o.req = a.caller>>,
     <<"C05.device.refused", (a.caller \notin Clients \/ "device" \notin Reg[a.caller].grants) => o.status >= 400>> }
 
 RulesPoll(a, o) ==
